@@ -568,10 +568,11 @@ def replay(ctx, obj):
         d = to_dict(c, real.tmp)
         code_setup, cfg = real.setup(d)
         print("setup_config:", code_setup)
-        n0 = len(ctx.fails) + len(ctx.known_hits)
+        nfail = lambda: sum(v for k, v in ctx.hist.items() if k.startswith("fail:"))  # noqa: E731
+        n0 = nfail()
         judge(ctx, real, c, code_setup, cfg, True, True)
         for f in ctx.fails:
             print("FAIL", f["signature"], "-", f["what"])
-        return 1 if len(ctx.fails) + len(ctx.known_hits) > n0 else 0
+        return 1 if nfail() > n0 else 0
     finally:
         real.close()
